@@ -26,19 +26,25 @@ PROPS["C19"] = dict(
         "Zrnt.Proofs.C19.merkle_domain",
         "Zrnt.Proofs.C19.merkle_sound",
         "Zrnt.Proofs.C19.merkle_complete",
+        "Zrnt.Proofs.C19.isqrtFrom_floor",
+        "Zrnt.Proofs.C19.isqrtPrysm_floor",
+        "Zrnt.Proofs.C19.subnet_spec",
+        "Zrnt.Proofs.C19.activationChurn_spec",
     ],
     modes=[dict(name="c19")],
     # regenerated items this property's theorems are about (a failure of any other item is not charged here)
     regen=["go2lean:MaxU64", "go2lean:MinU64", "go2lean:IntegerSquareroot", "go2lean:IsPowerOfTwo", "go2lean:NextPowerOfTwo",
            "go2lean:TimeToSlot", "go2lean:TimeAtSlot", "go2lean:SlotToEpoch", "go2lean:EpochStartSlot",
            "go2lean:ComputeActivationExitEpoch", "go2lean:GetChurnLimit", "go2lean:SlotPrevious", "go2lean:EpochPrevious",
-           "go2lean:CommitteeCount", "go2lean:CheckSlotSpan"],
+           "go2lean:CommitteeCount", "go2lean:CheckSlotSpan", "go2lean:FloorSquareRootFrom",
+           "go2lean:ComputeSubnetForAttestation", "go2lean:GetValidatorActivationChurnLimit"],
     components=["c19"],   # harness packages (go/internal/<name>) this property needs
     level="proof",
     trusted_base=TB_COMMON + [
         "go2lean translator (go/cmd/go2lean, tiny uint64 subset; regenerated every run; also validated differentially by mode c19)",
         "hand model of VerifyMerkleBranch (lean/Zrnt/Util/Merkle.lean) tied by correspondence with real SHA-256 on both sides",
         "Nat-level specifications in lean/Zrnt/Util/MathSpec.lean",
+        "hand model of IntegerSquareRootPrysm's wrapper (table lookup + float estimate, lean/Zrnt/Util/Prysm.lean) around the regenerated floorSquareRootFrom; the theorem holds for EVERY estimate, Lean's native Float is used only by the driver for the correspondence",
     ],
     manifest=dict(
         level_text="Lean theorems over the full UInt64 domain about functions regenerated from the Go source on every run (go2lean), plus a differential run of the same Go functions against the regenerated model and Nat-level specifications",
